@@ -1,7 +1,7 @@
 #!/bin/sh
 # usage: tools/confirm_mutant.sh <Cxx> <a|b> <crate>     (demo = demo_test.rs integration test)
 # confirms in the agent's scratch worktree: tests pass with the change, demo fails with it, passes without
-C=$1; M=$2; CR=$3; W=/tmp/mut/$C; O=$W/out/$M
+C=$1; M=$2; CR=$3; W=${MUTROOT:-/tmp/mut}/$C; O=$W/out/$M
 cd $W || exit 2
 git checkout -q -- . ; git clean -fdq crates
 git apply $O/patch.diff || { echo "APPLY-FAIL"; exit 2; }
